@@ -539,6 +539,15 @@ func fieldOptsOverride(opts *options, fieldName string, idx int) (*options, Erro
 		return nil, err
 	}
 	if !ok {
+		// A named key the handling tree does not mention leaves the tree: the
+		// configured field paths can not address anything below it. Array hops
+		// ("*" and indices) stay transparent.
+		if child == nil && idx < 0 && fieldName != "*" {
+			newOpts := *opts
+			newOpts.fieldHandlingTree = nil
+			return &newOpts, nil
+		}
+
 		// Only return a new `options` when arriving at new nested child. This
 		// combined with optimizations in `includeWildcard` will ensure that only
 		// a new opts will be created and returned when absolutely required.
